@@ -79,7 +79,7 @@ theorem accepted_commit_obeys_rules (m m' : MState) (client : String) (fate : Fa
     (∀ k ∈ keys, k ∈ prewrittenKeys t) ∧
     (∀ k ∈ t.attemptedKeys, ∃ x ∈ t.prewritten, x.1 = k) ∧
     (∃ p, t.primary = some p ∧ p ∈ prewrittenKeys t) ∧
-    ((∃ p, t.primary = some p ∧ p ∈ keys) ∨ t.primaryCommitted.isSome = true) ∧
+    ((∃ p, t.primary = some p ∧ p ∈ keys) ∨ t.primaryCommitted.isSome = true ∨ (t.asyncAcks > 0 ∧ t.plainAcks = 0)) ∧
     (∀ c, t.primaryCommitted = some c → c = C) :=
   monitor_accepts_commit m m' client fate S C keys ok definite h
 
